@@ -6183,17 +6183,28 @@ class Device(utils.CompositeEventEmitter):
             )
 
     @host_event_handler
-    @with_connection_from_handle
-    def on_disconnection_failure(self, connection: Connection, error_code: int):
+    def on_disconnection_failure(self, connection_handle: int, error_code: int):
         logger.debug(f'*** Disconnection failed: {error_code}')
-        error = core.ConnectionError(
-            error_code,
-            connection.transport,
-            connection.peer_address,
-            'hci',
-            hci.HCI_Constant.error_name(error_code),
-        )
-        connection.emit(connection.EVENT_DISCONNECTION_FAILURE, error)
+        if connection := self.lookup_connection(connection_handle):
+            error = core.ConnectionError(
+                error_code,
+                connection.transport,
+                connection.peer_address,
+                'hci',
+                hci.HCI_Constant.error_name(error_code),
+            )
+            connection.emit(connection.EVENT_DISCONNECTION_FAILURE, error)
+        elif link := (
+            self.sco_links.get(connection_handle)
+            or self.cis_links.get(connection_handle)
+        ):
+            # SCO and CIS links are disconnected with the same command, and the
+            # callers of their `disconnect` method wait for the same events.
+            link.emit(link.EVENT_DISCONNECTION_FAILURE, hci.HCI_Error(error_code))
+        else:
+            raise ObjectLookupError(
+                f'no connection for handle: 0x{connection_handle:04x}'
+            )
 
     @host_event_handler
     @utils.AsyncRunner.run_in_task()
